@@ -366,11 +366,6 @@ Proof.
   specialize (IH (hexf a b)). unfold hexf in *. lia.
 Qed.
 
-Lemma parse_hex_spec l : forall a, forallb hexdig l = true ->
-  parse_hex a l = if fold_left hexf l a <=? USIZE_MAX then Some (fold_left hexf l a) else None.
-Proof.
-  induction l as [|b l IH]; intros a H.
-Abort.
 Lemma parse_hex_spec l : forall a, a <= USIZE_MAX -> forallb hexdig l = true ->
   parse_hex a l = if fold_left hexf l a <=? USIZE_MAX then Some (fold_left hexf l a) else None.
 Proof.
